@@ -266,6 +266,8 @@ def _run_c15(case, world, log, v):
 # ---------------------------------------------------------------------------------------------------------
 
 
+FILL_K = 50000
+FILL_TOS = [4096, 4095, 4097, 8192, 8191, 4092, 4093]
 BIG_K = 100000
 _M = 1 << 20
 BIG_LENS = [4 * _M - 4096 - 1, 4 * _M - 4096, 4 * _M - 4095, 4 * _M - 100, 4 * _M - 1, 4 * _M, 4 * _M + 1, 8 * _M - 2000, 8 * _M - 4096, 1 * _M - 50,
@@ -275,6 +277,11 @@ BIG_LENS = [4 * _M - 4096 - 1, 4 * _M - 4096, 4 * _M - 4095, 4 * _M - 100, 4 * _
 def env_cfg(seed: int, k: int) -> dict:
     rng = rng_for(seed, "envcfg", k)
     plen = [0, 1, 15, 16, 17, 511, 512, 4095, 4096, 4097, 8192, 10000, 94293 % 20000][k % 13] if k < 39 else rng.randrange(0, 30000)
+    fill_to = 0
+    if FILL_K <= k < BIG_K:
+        # attribute records that end exactly at, one byte before, and one byte after a header block boundary
+        fill_to = FILL_TOS[(k - FILL_K) % len(FILL_TOS)]
+        plen = [100, 4096, 5000][(k - FILL_K) % 3]
     if k >= BIG_K:
         # payloads around the sizes at which a reader is likely to cut its work into pieces (1, 2, 4, 8 MiB), so that the
         # padding, the footer block or both fall on either side of such a boundary
@@ -292,7 +299,7 @@ def env_cfg(seed: int, k: int) -> dict:
         rng.shuffle(order)
     return {"plen": plen, "extra": extra, "order": order, "aad": [None, "ESXConfiguration", "x", "a much longer associated data string " * 3][k % 4],
             "padding": None if k % 5 else rng.choice([0, 1, 100, 4095, 5000]), "filler": rng.choice([0, 0xA5, 0xFF]), "seed": rng.getrandbits(40),
-            "ks_style": k % 16}
+            "ks_style": k % 16, "fill_to": fill_to}
 
 
 def build_env(cfg: dict):
@@ -323,7 +330,8 @@ def build_env(cfg: dict):
                 val = -val
         extra.append((name, typ, flag, val))
     aad = cfg["aad"].encode() if cfg["aad"] else None
-    blob, layout = W.seal_envelope(payload, key, rb(12), str(uuid.UUID(bytes=key_id)), extra, cfg["order"], aad, cfg["padding"], cfg["filler"])
+    blob, layout = W.seal_envelope(payload, key, rb(12), str(uuid.UUID(bytes=key_id)), extra, cfg["order"], aad, cfg["padding"], cfg["filler"],
+                                   cfg.get("fill_to", 0))
     ks_text = W.keystore_text(key_id, data1, data2, cfg["ks_style"])
     return blob, layout, payload, key, aad, ks_text, key_id
 
@@ -338,6 +346,10 @@ def _c16_plan(tier, verif_seed):
             plan.append((k, ["cli"]))
         if k % 8 == 0:
             plan.append((k, ["keystore"]))
+    for j in range(len(FILL_TOS) * (1 if tier == "quick" else 3)):
+        plan.append((FILL_K + j, ["none"]))
+        if j % 3 == 0:
+            plan.append((FILL_K + j, ["cli"]))
     for j in range(8 if tier == "quick" else len(BIG_LENS) * 2):
         plan.append((BIG_K + j, ["none"]))
         if j % 2 == 0:
